@@ -110,11 +110,14 @@ theorem C07_no_dup_no_drop (ooo : Bool) (prog : List Op) (done0 : List FId) (sch
     `LocalResource` awaited late; that chunk has `replace = false`) — to an `OooWf` program in out-of-order mode (only
     `next_id; push_fallback; push_async_out_of_order(Some)` triples and `ErrorBoundary` sub-builders: every resolved
     out-of-order list is `[ooo…, sync]`, no `push_async`, every marker id preceded by its own `next_id`); in both modes
-    the program's document is the resolved view, where a boundary that reads a `LocalResource` keeps its fallback. -/
-theorem C07_views_wellformed (v : View) :
+    the program's document is the resolved view, where a boundary that reads a `LocalResource` keeps its fallback.
+    Hypothesis `noLate` (decidable, Proofs/StreamView): no server resource is read synchronously for the first time
+    while a boundary resolves its children (inside the output of a `Suspend` or of another read) — the boundary does not
+    wait for such a read and the document then depends on the completion order: F-C07-6, `C07_late_read_witness`. -/
+theorem C07_views_wellformed (v : View) (hn : noLate .top v = true) :
     (inOrdOps (compile false .top v) = true ∧ docOps (compile false .top v) = viewDoc v) ∧
     (oooViewOk v = true → OooWf (compile true .top v) ∧ oooDocOps (compile true .top v) = viewDoc v) :=
-  ⟨(compile_inOrd _).1 .top v (Nat.le_refl _), fun h => (compile_oooWf _).1 .top v (Nat.le_refl _) h⟩
+  ⟨(compile_inOrd _).1 .top v (Nat.le_refl _) hn, fun h => (compile_oooWf _).1 .top v (Nat.le_refl _) h hn⟩
 
 /-- **C07_marker_ids** (`next_id`, sub-builder `id.push(0)`): in an `OooWf` program the out-of-order chunks pushed
     into the top-level builder carry the pairwise distinct ids `[1], [2], …`, and the chunks a resolved out-of-order
@@ -132,13 +135,13 @@ theorem C07_marker_ids :
       (oooIds (resolveOoo env p).chunks).Nodup) :=
   ⟨fun prog hw done0 => startStream_ids prog hw done0, fun env p I hI hw => resolveOoo_ids env p I hI hw⟩
 
-/-- **C07_in_order_views.** For every view and every schedule the in-order stream concatenates to the
-    synchronous render of the fully resolved view. -/
-theorem C07_in_order_views (v : View) (done0 : List FId) (sched : List (List FId)) :
+/-- **C07_in_order_views.** For every view (without a late synchronous resource read, `noLate`) and every schedule
+    the in-order stream concatenates to the synchronous render of the fully resolved view. -/
+theorem C07_in_order_views (v : View) (hn : noLate .top v = true) (done0 : List FId) (sched : List (List FId)) :
     ((startStream false done0 (compile false .top v)).polls sched).out.getLast? = some Poll.done →
     itemsOf ((startStream false done0 (compile false .top v)).polls sched).out = viewDoc v := by
   intro hl
-  have hv := (C07_views_wellformed v).1
+  have hv := (C07_views_wellformed v hn).1
   rw [← hv.2]
   exact (C07_in_order _ hv.1 done0 sched).2.1 hl
 
@@ -181,12 +184,12 @@ theorem C07_out_of_order_total (prog : List Op) (hw : OooWf prog) (hc : cleanOps
 
 /-- **C07_out_of_order_views.** Every view of the grammar with clean strings, every schedule: the out-of-order
     stream, after its scripts, is the synchronous render of the fully resolved view. -/
-theorem C07_out_of_order_views (v : View) (hc : cleanView v = true) (hok : oooViewOk v = true)
+theorem C07_out_of_order_views (v : View) (hc : cleanView v = true) (hok : oooViewOk v = true) (hn : noLate .top v = true)
     (done0 : List FId) (sched : List (List FId)) :
     ((startStream true done0 (compile true .top v)).polls sched).out.getLast? = some Poll.done →
     applyScripts (itemsOf ((startStream true done0 (compile true .top v)).polls sched).out) = viewDoc v := by
   intro hl
-  have hv := (C07_views_wellformed v).2 hok
+  have hv := (C07_views_wellformed v hn).2 hok
   rw [← hv.2]
   exact (C07_out_of_order _ hv.1 ((compile_clean true _).1 .top v (Nat.le_refl _) hc) done0 sched).2 hl
 
@@ -363,6 +366,34 @@ theorem C07_api_misuse_witness :
       = [Poll.item "<em>y</em><b>x</b>".toList, Poll.item "<i>m</i>".toList, Poll.done]
     ∧ oooWfOps misuseProg = false := by decide
 
+/-- F-C07-6 (open; class `sync-read-late`). `<div><Suspense fallback=<u>f</u>>{r1.get().map(|_| (<i>1</i>,
+    r2.get().map(|_| <em>2</em>)))}</Suspense></div>`: resource 2 is read for the first time while the boundary resolves
+    its children, after it stopped collecting the tasks it waits for.  Completion order 2,1 gives the resolved document;
+    order 1,2 ends the stream — before future 2 has completed — with `<!>` (`None`) in its place, in both modes.
+    `noLate` excludes exactly this; the same read directly under the boundary (`lateFixed`) is waited for. -/
+def lateRead : View :=
+  .seq [.raw "<div>".toList,
+        .suspense "<u>f</u>".toList none
+          [.resRead true 1 (.seq [.raw "<i>1</i>".toList, .resRead false 2 (.raw "<em>2</em>".toList)])],
+        .raw "</div>".toList]
+def lateFixed : View :=
+  .seq [.raw "<div>".toList,
+        .suspense "<u>f</u>".toList none
+          [.resRead true 1 (.raw "<i>1</i>".toList), .resRead false 2 (.raw "<em>2</em>".toList)],
+        .raw "</div>".toList]
+
+theorem C07_late_read_witness :
+    noLate .top lateRead = false ∧ viewDoc lateRead = "<div><i>1</i><em>2</em></div>".toList
+    ∧ ((startStream false [] (compile false .top lateRead)).polls [[], [2], [1], []]).out
+      = [Poll.item "<div>".toList, Poll.pending, Poll.item "<i>1</i><em>2</em></div>".toList, Poll.done]
+    ∧ ((startStream false [] (compile false .top lateRead)).polls [[], [1], [2], []]).out
+      = [Poll.item "<div>".toList, Poll.item "<i>1</i><!></div>".toList, Poll.done, Poll.done]
+    ∧ applyScripts (itemsOf ((startStream true [] (compile true .top lateRead)).polls [[], [1], [], [2], []]).out)
+      = "<div><i>1</i><!></div>".toList
+    ∧ noLate .top lateFixed = true ∧ viewDoc lateFixed = viewDoc lateRead
+    ∧ ((startStream false [] (compile false .top lateFixed)).polls [[], [1], [2], []]).out
+      = [Poll.item "<div>".toList, Poll.pending, Poll.item "<i>1</i><em>2</em></div>".toList, Poll.done] := by decide
+
 /-! ## non-vacuity -/
 
 /-- two futures, both completion orders, in-order: different chunkings, same document; the hypothesis of
@@ -409,11 +440,11 @@ example : ((startStream true [] (compile true .top nestedOoo)).polls [[1, 2], []
     (in-order: the fallback arrives as an in-order chunk) -/
 def resView : View :=
   .seq [.raw "<div>".toList,
-        .suspense "<u>f</u>".toList none [.resRead 1 (.raw "<i>v</i>".toList), .resSuspend 2 (.raw "<em>w</em>".toList)],
+        .suspense "<u>f</u>".toList none [.resRead true 1 (.raw "<i>v</i>".toList), .resSuspend 2 (.raw "<em>w</em>".toList)],
         .suspense "<u>g</u>".toList none [.localRead, .raw "<p>never</p>".toList],
         .raw "</div>".toList]
 
-example : oooViewOk resView = true ∧ cleanView resView = true ∧ viewDoc resView = "<div><i>v</i><em>w</em><u>g</u></div>".toList
+example : oooViewOk resView = true ∧ cleanView resView = true ∧ noLate .top resView = true ∧ viewDoc resView = "<div><i>v</i><em>w</em><u>g</u></div>".toList
     ∧ ((startStream false [] (compile false .top resView)).polls [[], [2], [1], []]).out
       = [Poll.item "<div>".toList, Poll.pending, Poll.item "<i>v</i><em>w</em><u>g</u></div>".toList, Poll.done]
     ∧ ((startStream true [] (compile true .top resView)).polls [[1, 2], []]).out
